@@ -70,10 +70,11 @@ def with_fields_set(cls: Cls) -> Cls:
 
     def new_setattr(self, attr, value):
         try:
-            self.__dict__[FIELDS_SET_ATTR].add(attr)
+            fields_set = self.__dict__[FIELDS_SET_ATTR]
         except KeyError:
             raise RuntimeError(dataclass_before_error) from None
         old_setattr(self, attr, value)  # type: ignore
+        fields_set.add(attr)  # only if the assignment succeeded (e.g. frozen class)
 
     for attr, old, new in [
         ("__new__", old_new, new_new),
